@@ -52,6 +52,21 @@ CLAIMED = {
             'Programs of open/read/readinto/readall/seek/tell/close/extract/query ops over 4-8 files (parsed from an image, added but unwritten, shared backing file, one > 4 GiB two-extent file) are interpreted against PyCdlibIO and an io.BytesIO shadow per stream; every return value and position must agree, extraction output must equal the content, and reads may only touch image bytes inside the file being read (read log of the image file).',
             'Negative resulting seek positions, closed streams and boot-info-table files are excluded by construction (documented or unstated behaviour). Single-threaded interleavings only.',
             'DESIGN.md section 3, C16'),
+    'C13': ('exploration',
+            'property-based testing (Hypothesis): boundary-straddling candidate identifiers and re-add histories against a reference legality predicate, with an independent scan of the written directory',
+            'Candidate identifiers from a grammar that straddles every boundary of the statement (characters, 8.3, 30/31, 207/208, 222+, dots, semicolons, versions, Joliet 64 units, UDF 254/127, depth 7/8) and 2-6 op histories that re-add existing/removed/other-type/other-namespace names are applied to fresh images. Accepted => legal per vf/legal.py, image writes, reopens and holds the identifier exactly once (independent struct-based lister); refused => exactly PyCdlibInvalidInput from the edit; illegal => refused; duplicates => refused.',
+            'vf/legal.py encodes the rules listed in the statement (interpretation points are marked). Over-refusals of legal names are counted, not failed.',
+            'DESIGN.md section 3, C13'),
+    'C18': ('exploration',
+            'property-based testing (Hypothesis): generated Unicode source names through the mangling helpers and the facades, checked against the legality predicate and by real edits',
+            'Nasty Unicode source names (case-mapping expanders, combining marks, astral, dots, semicolons, control characters; lengths around 8/12/30/207/255) at every level for files and directories: the helpers must not raise, the derived identifier must be legal (vf/legal.py) and accepted by a real add on a fresh image that writes and reopens, identity on already-legal input, and the Rock Ridge/Joliet/UDF facades must add, find, read and remove entries by the generated names.',
+            'Collisions of derived names inside one directory are skipped (the facades have no collision numbering).',
+            'DESIGN.md section 3, C18'),
+    'C20': ('exploration',
+            'property-based testing (Hypothesis): generated source trees and option sets through the two command-line tools as subprocesses; extracted tree compared with a model, image sniffed independently',
+            'Source trees (colliding names after mangling, Unicode, > 8.3 / 31 / 64 characters, deep nesting, empty files and directories, identical and hash-colliding contents, relative/absolute/dangling symlinks) x -iso-level x -R/-r x -J x -udf x -scan-for-duplicates x boot options x hide/exclude patterns are built with pycdlib-genisoimage and extracted with pycdlib-extract-files per requested view; paths, bytes and symlink targets must match the model of the tree, the ISO9660 view must hold every file once under a legal distinct identifier, and the image must carry exactly the requested extensions (struct-based sniffing).',
+            'Only documented option combinations are generated; patterns never start with "-" and never match the boot image.',
+            'DESIGN.md section 3, C20'),
 }
 
 NOT_YET = 'check not built yet in this session (work in progress; see DESIGN.md section 9 for the order)'
